@@ -43,7 +43,7 @@ func Scenarios() []*Scn {
 		{Name: "S05-2streams-2workers", Pool: std, Capacity: 4, Sources: [][]Ev{{x, y, x2, y2}}, Workers: 2, Props: "C01 C02"},
 		{Name: "S06-2sources", Pool: low, Capacity: 4, Sources: [][]Ev{plain(2, ""), plain(2, "")}, Props: "C02 C04 C05"},
 		{Name: "S07-discard-mid", Pool: std, Capacity: 4, Sources: [][]Ev{{ev(`{"k":1}`), ev(`{"d":"1"}`), ev(`{"k":3}`)}}, Actions: []string{"discard"}, Workers: 2, Props: "C01 C02 C05"},
-		{Name: "S08-join-SCO-S", Pool: std, Capacity: 4, Sources: [][]Ev{{S, C, Oth, ev(`{"m":"S4"}`)}}, Actions: []string{"join"}, Props: "C01 C02 C04"},
+		{Name: "S08-join-SCO-S", Pool: std, Capacity: 4, Sources: [][]Ev{{S, C, Oth, ev(`{"m":"S4"}`)}}, Actions: []string{"join"}, Props: "C01 C02 C04 C15"},
 		{Name: "S09-join-join2", Pool: std, Capacity: 4, Sources: [][]Ev{{ev(`{"m":"S1","n":"S1"}`), ev(`{"m":"x2","n":"C2"}`), ev(`{"m":"x3","n":"x3"}`)}}, Actions: []string{"join", "join2"}, Props: "C02 C01"},
 		{Name: "S10-split-join", Pool: std, Capacity: 4, Sources: [][]Ev{{ev(`{"arr":[{"m":"S1"},{"m":"x2"}]}`), ev(`{"m":"x3"}`)}}, Actions: []string{"split", "join"}, Props: "C01 C02 C05"},
 		{Name: "S11-collapse-ccp", Pool: low, Capacity: 4, Sources: [][]Ev{{ev(`{"c":1}`), ev(`{"c":2}`), ev(`{"p":3}`)}}, Actions: []string{"collapse"}, Props: "C01 C02 C05"},
@@ -54,9 +54,12 @@ func Scenarios() []*Scn {
 		{Name: "S16-split-giveup-dq", Pool: std, Capacity: 4, Sources: [][]Ev{{ev(`{"arr":[{"m":"c1"},{"m":"c2"}]}`), ev(`{"m":"x3"}`)}}, Actions: []string{"split"}, BatchCount: 3, Sends: "ff", Retry: 0, DeadQueue: "sync", Props: "C01 C02 C05"},
 		{Name: "S17-split-giveup-nodq", Pool: low, Capacity: 4, Sources: [][]Ev{{ev(`{"arr":[{"m":"c1"},{"m":"c2"}]}`), ev(`{"m":"x3"}`)}}, Actions: []string{"split"}, BatchCount: 3, Sends: "ff", Retry: 0, Props: "C01 C02 C05"},
 		// late arrivals: an event put on a stream whose processor has been parked in blockGet for a while (heartbeat ticks at 200ms multiples)
-		{Name: "S23-join-hold-late-put", Pool: std, Capacity: 4, Sources: [][]Ev{{S, Ev{JSON: `{"m":"x2"}`, Delay: 400 * time.Millisecond}}}, Actions: []string{"join"}, Props: "C04 C02 C01"},
-		{Name: "S24-discard-then-join-late", Pool: std, Capacity: 4, Sources: [][]Ev{{S, ev(`{"d":"1"}`), Ev{JSON: `{"m":"x3"}`, Delay: 100 * time.Millisecond}}}, Actions: []string{"discard", "join"}, Props: "C01 C02 C04"},
+		{Name: "S23-join-hold-late-put", Pool: std, Capacity: 4, Sources: [][]Ev{{S, Ev{JSON: `{"m":"x2"}`, Delay: 400 * time.Millisecond}}}, Actions: []string{"join"}, Props: "C04 C02 C01 C15"},
+		{Name: "S24-discard-then-join-late", Pool: std, Capacity: 4, Sources: [][]Ev{{S, ev(`{"d":"1"}`), Ev{JSON: `{"m":"x3"}`, Delay: 100 * time.Millisecond}}}, Actions: []string{"discard", "join"}, Props: "C01 C02 C04 C15"},
 		{Name: "S25-collapse-late-put", Pool: low, Capacity: 4, Sources: [][]Ev{{ev(`{"c":1}`), Ev{JSON: `{"p":2}`, Delay: 600 * time.Millisecond}}}, Actions: []string{"collapse"}, Props: "C04 C02"},
+		{Name: "S26-join-2sources-2streams", Pool: std, Capacity: 4, Sources: [][]Ev{
+			{evs("x", `{"stream":"x","m":"S1"}`), evs("y", `{"stream":"y","m":"Sa"}`), evs("x", `{"stream":"x","m":"C2"}`), evs("y", `{"stream":"y","m":"xb"}`)},
+			{ev(`{"m":"S7"}`), ev(`{"m":"C8"}`)}}, Actions: []string{"join"}, Workers: 2, Props: "C15"},
 		{Name: "S18-cap1-join-hold", Pool: low, Capacity: 1, Sources: [][]Ev{{S, Oth}}, Actions: []string{"join"}, Props: "C04 C05"},
 		{Name: "S19-1proc-2streams", Pool: std, Capacity: 2, SingleProc: true, Sources: [][]Ev{{x, y, x2}}, Props: "C02 C04"},
 		{Name: "S20-exits-of-In", Pool: std, Capacity: 2, MaxEventSize: 40, Sources: [][]Ev{{
@@ -125,7 +128,7 @@ func Grid() []*Scn {
 						out = append(out, &Scn{
 							Name: fmt.Sprintf("G-%s-cap%d-single%v-%s-%s", pool, capacity, single, strings.ReplaceAll(chain, ",", "+"), sh.name),
 							Pool: pool, Capacity: capacity, SingleProc: single, Sources: sh.sources(chain), Actions: actions,
-							Workers: 2, Bound: 2, Horizon: 20 * time.Second, Props: "C01 C02 C04 C05",
+							Workers: 2, Bound: 2, Horizon: 20 * time.Second, Props: "C01 C02 C04 C05 C15",
 						})
 					}
 				}
